@@ -23,9 +23,11 @@ Section Session.
     intros prog. induction tss as [|[t st] tss IH]; intros i p d; [reflexivity|].
     cbn [obj_loop run_loop].
     specialize (IH (i + 1)%Z (rp_tick p t st i)
-                   (prog (rp_clock (rp_tick p t st i)) (det_empty A zero E (negb (rp_nd (rp_tick p t st i))) d))).
+                   (det_extract A E (prog (rp_clock (rp_tick p t st i))
+                                          (det_empty A zero E (negb (rp_nd (rp_tick p t st i))) d)))).
     destruct (obj_loop A zero E prog (i + 1)%Z tss (rp_tick p t st i)
-                (prog (rp_clock (rp_tick p t st i)) (det_empty A zero E (negb (rp_nd (rp_tick p t st i))) d)))
+                (det_extract A E (prog (rp_clock (rp_tick p t st i))
+                                       (det_empty A zero E (negb (rp_nd (rp_tick p t st i))) d))))
       as [os fin] eqn:El.
     cbn [fst] in *. rewrite IH. reflexivity.
   Qed.
@@ -169,6 +171,7 @@ Section Session.
       nth_error (session A zero G E SRAlwaysNew runs st) k = Some (Ran trace)
       /\ forall i o, nth_error trace i = Some o ->
            scene (o_begin o) = None /\ photon (o_begin o) = None /\ charge (o_begin o) = None
+           /\ cframe (o_begin o) = None
            /\ signal (o_begin o) = None /\ image (o_begin o) = None
            /\ pixel (o_begin o) =
               match i with
